@@ -207,6 +207,71 @@ def raising_load(how, out, gpath, genome, k, chrom):
         gc.collect()
 
 
+def interleaved_loads(out, gpath, genome, chroms, order):
+    """Two loads through DensityData(...) of two DIFFERENT result files of one directory, run as two threads. Each pauses after its
+    copy of the raw file has been made ("copied") and before it publishes the exchanged copy ("publish"); `order` is the sequence
+    [[loader, point], ...] in which the four pauses are released. Returns the outcome of each load."""
+    import threading
+    tl = threading.local()
+    points = [(i, pt) for i in (0, 1) for pt in ("copied", "publish")]
+    gates = {k: threading.Event() for k in points}
+    arrived = {k: threading.Event() for k in points}
+    done = [threading.Event(), threading.Event()]
+    real_copy, real_replace = shutil.copyfile, os.replace
+
+    def pause(point):
+        a = getattr(tl, "actor", None)
+        if a is not None:
+            arrived[(a, point)].set()
+            gates[(a, point)].wait(timeout=20)
+
+    def copy(src, dst, *a, **k):
+        r = real_copy(src, dst, *a, **k)
+        pause("copied")
+        return r
+
+    def repl(a, b):
+        pause("publish")
+        return real_replace(a, b)
+
+    outcomes = [None, None]
+
+    def work(i):
+        tl.actor = i
+        try:
+            for dd in do_load("ctor", out, gpath, genome, only_chrom=chroms[i]):
+                dd.data_frame.close()
+            outcomes[i] = "completed"
+        except BaseException as e:  # noqa
+            outcomes[i] = "%s: %s" % (type(e).__name__, str(e)[:120])
+        finally:
+            done[i].set()
+
+    shutil.copyfile, os.replace = copy, repl
+    ths = [threading.Thread(target=work, args=(i,), daemon=True) for i in (0, 1)]
+    try:
+        for t in ths:
+            t.start()
+        import time
+        for i, pt in order:
+            t0 = time.time()
+            while not arrived[(i, pt)].is_set() and not done[i].is_set() and time.time() - t0 < 10:
+                time.sleep(0.005)
+            gates[(i, pt)].set()
+            # let the released loader run up to its next pause (or to its end) before the next release
+            nxt = (i, "publish") if pt == "copied" else None
+            t0 = time.time()
+            while time.time() - t0 < 10 and not done[i].is_set() and not (nxt and arrived[nxt].is_set()):
+                time.sleep(0.005)
+    finally:
+        for g_ in gates.values():
+            g_.set()
+        for t in ths:
+            t.join(timeout=20)
+        shutil.copyfile, os.replace = real_copy, real_replace
+    return outcomes
+
+
 def op_session(req):
     d = tempfile.mkdtemp(prefix="vh_rd_")
     genome = req.get("genome", "G")
@@ -221,6 +286,10 @@ def op_session(req):
                 shas[fn] = sha(p)
         steps_out = []
         for st in req["steps"]:
+            if st.get("interleave") is not None:
+                steps_out.append({"interleave": st["interleave"], "outcomes": interleaved_loads(out, gpath, genome, st["interleave"], st["order"]),
+                                  "files": sorted(os.listdir(out))})
+                continue
             if st.get("crash") is not None and st["crash"].get("mode") == "raise":
                 r_ = raising_load(st["how"], out, gpath, genome, st["crash"], st.get("chrom"))
                 steps_out.append({"crash": st["crash"], "outcome": r_, "files": sorted(os.listdir(out))})
